@@ -13,7 +13,7 @@ RULE = ("complete enumeration of what the shunting loop can distinguish: every i
         "every tree shape (1,2,5) x {fully bracketed, minimally bracketed by the reference precedence} x 3 bracket styles x 3 leaf "
         "tuples (negative operands so floor != truncation); every prefix operator in every grammatical position of every 2-operator tree; "
         "6-operator flat and right-nested spines for all 144 operator pairs; every literal spelling x boundary values; 8/9 rejection; "
-        "leaf regimes: constants, symbols defined before, symbols defined after, address-valued (labels, '.') with the link base settled "
+        "every 2-operator tree with '.' among its leaves inside '.repeat 3 {...}' (one token evaluated at three addresses); leaf regimes: constants, symbols defined before, symbols defined after, address-valued (labels, '.') with the link base settled "
         "first / last / defaulted. Values are read back through .dword or four 16-bit slices and compared with pdpmc/ref/expr.py; trees "
         "whose reference value is an error must fail. Non-trivial = distinct (regime, expression text) pairs")
 ASSUMPTIONS = ["reference evaluator pdpmc/ref/expr.py written from the documented semantics (vectors in selftest)",
@@ -196,6 +196,8 @@ def cases(tier):
             yield {"k": "spine", "mode": mode, "o1": o1}
     yield {"k": "literals"}
     yield {"k": "bad-digits"}
+    for first in ref.INFIX:
+        yield {"k": "in-repeat", "first": first}
 
 
 def run_items(items, r, mode):
@@ -286,6 +288,35 @@ def check(case, r, tier):
                         uid += 1
                         items.append(make_item("spine-left", left, mode, style, True, tup, uid))
         run_items(items, r, mode)
+    elif k == "in-repeat":
+        # the same expression token evaluated at successive addresses: '.repeat 3 { .dword e }' with '.' among the leaves
+        base = 0o1000
+        for o2 in ref.INFIX:
+            for shape in ref.shapes(2):
+                tree = ref.instantiate(shape, [case["first"], o2])
+                for style in STYLES:
+                    for full in (True, False):
+                        leaves = {0: ".", 1: "3", 2: "lb"}
+                        text = render(tree, lambda i: leaves[i], style, full)
+                        vals = []
+                        try:
+                            for it in range(3):
+                                env = [base + 6 + 4 * it, 3, base + 3, 0]
+                                ref.bounded_after_error(tree, env)
+                                v = ref.evaluate(tree, env)
+                                if not -2 ** 31 <= v < 2 ** 31:
+                                    raise ref.TooBig()
+                                vals.append(v)
+                        except (ref.RefError, ref.TooBig):
+                            continue
+                        want = ADDR_PREFIX_BYTES + b"".join(observe(text, v)[1] for v in vals)
+                        prog = ".link 1000\n" + ADDR_PREFIX + ".repeat 3 { .dword %s }\n" % text
+                        out = driver.assemble([("r.mac", prog)])
+                        okk = out.status == "ok" and out.code == want
+                        r.ran("ok" if okk else out.cls(), key=("in-repeat", text))
+                        if not okk:
+                            sig, what = batch.classify_mismatch(out, want)
+                            r.violation(sig + ":in-repeat", what, {"kind": "single", "text": prog, "expected_hex": want.hex()}, want.hex(), out.brief())
     elif k == "literals":
         vals = [0, 1, 7, 8, 9, 10, 15, 16, 63, 64, 255, 256, 0o77777, 0o100000, 0o177777, 0o200000, 2 ** 31 - 1, 2 ** 31, 2 ** 32 - 1, 2 ** 32 + 5, 2 ** 48 + 9]
         items = []
